@@ -4,6 +4,7 @@
 From Coq Require Import ZArith List String Bool.
 From Hexital Require Import Base.Prelude Base.Num Model.Manager Model.Candle Model.Readings Model.Engine.
 Import ListNotations.
+Local Open Scope string_scope.
 Local Open Scope Z_scope.
 
 Section Hexital.
@@ -21,19 +22,83 @@ Record hexital := {
 
 Definition get_mgr (h : hexital) (k : string) : res (mcfg * store) := of_opt KeyError (alist_get k (h_mgrs h)).
 
-(* Hexital.calculate(): every member, in registration order, on its manager's candles *)
-Definition hx_calculate (h : hexital) : res hexital :=
+(* the members an optional name selects (Hexital.calculate(name), purge(name), ...) *)
+Definition sel (name : option string) (m : member) : bool :=
+  match name with None => true | Some n => String.eqb n (i_name NO (m_ind m)) end.
+
+(* run [f] on the candles of every selected member, in registration order *)
+Definition hx_on_members (f : ind NO -> store -> res store) (name : option string) (h : hexital) : res hexital :=
   foldM (fun h' m =>
-           '(cfg, st) <- get_mgr h' (m_mgr m) ;;
-           st' <- calculate NO (m_ind m) st ;;
-           Ok {| h_mgrs := alist_set (m_mgr m) (cfg, st') (h_mgrs h'); h_members := h_members h' |})
+           if sel name m then
+             '(cfg, st) <- get_mgr h' (m_mgr m) ;;
+             st' <- f (m_ind m) st ;;
+             Ok {| h_mgrs := alist_set (m_mgr m) (cfg, st') (h_mgrs h'); h_members := h_members h' |}
+           else Ok h')
         (h_members h) h.
+
+(* Hexital.calculate(): every member, in registration order, on its manager's candles *)
+Definition hx_calculate (h : hexital) : res hexital := hx_on_members (calculate NO) None h.
 
 (* Hexital.append(): every manager receives its own raw copy of the candles, then calculate() *)
 Definition hx_append (h : hexital) (new : list cd) : res hexital :=
   mgrs <- mapM (fun kv => let '(k, (cfg, st)) := kv in
                           st' <- mgr_append NO cfg st new ;; Ok (k, (cfg, st'))) (h_mgrs h) ;;
   hx_calculate {| h_mgrs := mgrs; h_members := h_members h |}.
+
+(* Candle.clean_copy: the raw values, no readings, no conversion *)
+Definition clean_copy (c : cd) : cd := {| t := t c; p := raw_payload NO (recovered NO (p c)) |}.
+
+(* Hexital._validate_indicators for one indicator: a member without a timeframe joins the
+   default manager; one with a timeframe joins that timeframe's manager, created if absent
+   from clean copies of the default manager's *current* candles (already collapsed, filled,
+   trimmed - known findings K2/K3) with the Hexital's other settings *)
+Definition hx_attach (hcfg : mcfg) (h : hexital) (J : ind NO) (own : option (string * Z)) : res hexital :=
+  match own with
+  | None => Ok {| h_mgrs := h_mgrs h; h_members := h_members h ++ [{| m_ind := J; m_mgr := "default" |}] |}
+  | Some (key, tfs) =>
+    match alist_get key (h_mgrs h) with
+    | Some _ => Ok {| h_mgrs := h_mgrs h; h_members := h_members h ++ [{| m_ind := J; m_mgr := key |}] |}
+    | None =>
+      '(_, dst) <- get_mgr h "default" ;;
+      let cfg' := {| tf := Some tfs; fillon := fillon hcfg; ha := ha hcfg; lifespan := lifespan hcfg |} in
+      st <- tasks NO cfg' (map clean_copy dst) ;;
+      Ok {| h_mgrs := (h_mgrs h ++ [(key, (cfg', st))])%list;
+            h_members := h_members h ++ [{| m_ind := J; m_mgr := key |}] |}
+    end
+  end.
+
+(* Hexital(...): the default manager over the given candles, then every indicator attached *)
+Definition hx_new (hcfg : mcfg) (init : list cd) (members : list (ind NO * option (string * Z))) : res hexital :=
+  st0 <- tasks NO hcfg init ;;
+  foldM (fun h m => hx_attach hcfg h (fst m) (snd m)) members
+        {| h_mgrs := [("default", (hcfg, st0))]; h_members := [] |}.
+
+(* the public operations *)
+Inductive hop :=
+| HAppend (new : list cd)
+| HCalculate (name : option string)
+| HPurge (name : option string)
+| HRecalculate (name : option string)
+| HCalcIndex (name : option string) (index : Z)
+| HRemove (name : string)
+| HAdd (J : ind NO) (own : option (string * Z)).
+
+Definition hx_purge (name : option string) (h : hexital) : res hexital :=
+  hx_on_members (fun J st => Ok (purge NO J st)) name h.
+
+Definition hx_step (hcfg : mcfg) (h : hexital) (op : hop) : res hexital :=
+  match op with
+  | HAppend new => hx_append h new
+  | HCalculate name => hx_on_members (calculate NO) name h
+  | HPurge name => hx_purge name h
+  | HRecalculate name => h1 <- hx_purge name h ;; hx_on_members (calculate NO) name h1
+  | HCalcIndex name index => hx_on_members (fun J st => calculate_index NO J index None st) name h
+  | HRemove name =>
+    h1 <- hx_purge (Some name) h ;;
+    Ok {| h_mgrs := h_mgrs h1;
+          h_members := filter (fun m => negb (String.eqb name (i_name NO (m_ind m)))) (h_members h1) |}
+  | HAdd J own => hx_attach hcfg h J own
+  end.
 
 (* a standalone indicator with the same manager configuration *)
 Definition alone_append (cfg : mcfg) (I : ind NO) (st : store) (new : list cd) : res store :=
